@@ -153,7 +153,12 @@ def main():
     distinct = set()
     samples = []
     tagcount = {}
+    import concurrent.futures as _cf
+    import time as _time
+    _pool = _cf.ThreadPoolExecutor(max_workers=2)       # the model side of stream k is evaluated by coqc while the implementation
+    pending = []                                         # side of stream k+1 runs (both are compared below, nothing is skipped)
     for k, sname in enumerate(spec["streams"]):
+        _t0 = _time.time()
         stream = importlib.import_module("s_" + sname)
         rng = random.Random(seed * 1000003 + k)
         import re as _re
@@ -191,12 +196,24 @@ def main():
         if cases:
             samples.append({"stream": sname, "case": common.canon(cases[min(len(cases) - 1, 7)]),
                             "impl_observation": common.canon(obs_list[min(len(cases) - 1, 7)])})
+        _impl_s = round(_time.time() - _t0, 1)
         if getattr(stream, "MODEL", True):
-            mism, details = common.run_cases(prop + "_" + sname, stream.IMPORTS, stream.RUN, stream.CASE_TYPE, pairs)
+            def _coq(name=prop + "_" + sname, st=stream, prs=pairs):
+                t1 = _time.time()
+                r = common.run_cases(name, st.IMPORTS, st.RUN, st.CASE_TYPE, prs)
+                return r, round(_time.time() - t1, 1)
+            fut = _pool.submit(_coq)
         else:
-            mism, details = [], {}      # a stream that only evaluates the property directly on the implementation
+            fut = None                  # a stream that only evaluates the property directly on the implementation
+        pending.append((sname, stream, cases, obs_list, msg_filter, fut, _impl_s))
+    for sname, stream, cases, obs_list, msg_filter, fut, _impl_s in pending:
+        if fut is not None:
+            (mism, details), _coq_s = fut.result()
+        else:
+            (mism, details), _coq_s = ([], {}), 0.0
         coverage["streams"][sname] = {"cases": len(cases), "model_impl_disagreements": len(mism),
-                                      "compared_with_model": bool(getattr(stream, "MODEL", True))}
+                                      "compared_with_model": bool(getattr(stream, "MODEL", True)),
+                                      "implementation_and_oracle_s": _impl_s, "model_evaluation_s": _coq_s}
         for i in mism[:5]:
             c = cases[i]
             msgs = stream.oracle(c, obs_list[i]) if obs_list[i] != "hang" else ["hang"]
